@@ -19,7 +19,9 @@ theorem inv0_step {s l s'} (hi : Inv0 s) (hs : Step s l s') : Inv0 s' := by
   | fRefLoad c rest d h hk hf => exact inv0_same hi rfl rfl rfl
   | fForward c rest d n h hk hn => exact inv0_same hi rfl rfl rfl
   | fForwardPost c rest d h hk => exact inv0_same hi rfl rfl rfl
-  | fRetire c rest d n h hk => exact inv0_same hi rfl rfl rfl
+  | fEnter c rest d h hk hf => exact inv0_same hi rfl rfl rfl
+  | rRefLoad c h => exact inv0_same hi rfl rfl rfl
+  | rRetire c n h => exact inv0_same hi rfl rfl rfl
   | jInvoke c h => exact inv0_same hi rfl rfl rfl
   | jDec c h => exact inv0_same hi rfl rfl rfl
   | oLoad t op rest k x h ht hk hr hx =>
@@ -58,8 +60,7 @@ theorem inv0_step {s l s'} (hi : Inv0 s) (hs : Step s l s') : Inv0 s' := by
   | oIncRef t c h hk => have hp := hi.busy t (by rw [h]; simp); inv0_o hi, t, hp
   | oSubmit t c h => have hp := hi.busy t (by rw [h]; simp); have := hi.le t; inv0_o hi, t, hp
   | oForward t c h hk => have hp := hi.busy t (by rw [h]; simp); inv0_o hi, t, hp
-  | oRefLoad t c h hk => have hp := hi.busy t (by rw [h]; simp); inv0_o hi, t, hp
-  | oRetire t c n h => have hp := hi.busy t (by rw [h]; simp); have := hi.le t; inv0_o hi, t, hp
+  | oEnter t c h hk => have hp := hi.busy t (by rw [h]; simp); have := hi.le t; inv0_o hi, t, hp
   | oWaited t c rest h ht hf => have hp := hi.busy t (by rw [h]; simp); inv0_o hi, t, hp
   | oGetc t c rest h ht hf => have hp := hi.busy t (by rw [h]; simp); inv0_o hi, t, hp
   | oGetRef t c rest h ht hf => have hp := hi.busy t (by rw [h]; simp); inv0_o hi, t, hp
